@@ -234,6 +234,7 @@ def check(ctx, report):
                 report.add('C19.R3', scan.construct + '@origin', 'separator scan does not start at the item offset (%s)' % it)
     report.floor('C19.R1', 300, 'classes in the containment graph')
     stateless_parsing(ctx, report)
+    linear_scans_in_loops(ctx, report)
     report.floor('C19.R4', 60, 'loop/item obligations')
 
 
@@ -378,3 +379,28 @@ def reviewed_lazy_registry(f, node):
     st = [x for x in parent[0].body if isinstance(x, ast.Assign)][0]
     empty = isinstance(st.value, ast.Call) and not st.value.args and not st.value.keywords
     return empty and 'not in' in ast.unparse(parent[0].test)
+
+
+def linear_scans_in_loops(ctx, report):
+    """R6: list.remove / list.index / list.count compare the argument with every preceding element through ``==``; for the
+    attrs classes of this package that is an interpreter-level __eq__ per element. Inside a loop over parsed items the
+    work is quadratic in the number of items (32767 cipher suites fit in one hello)."""
+    model = ctx.model
+    report.rule('C19.R6', 'no element-wise list search (remove / index / count) inside a loop of a parse function')
+    n_loops = 0
+    for f in model.functions():
+        if f.module.external or not f.name.lstrip('_').startswith('parse'):
+            continue
+        for lp in ast.walk(f.node):
+            if not isinstance(lp, (ast.For, ast.While, ast.ListComp, ast.GeneratorExp, ast.SetComp, ast.DictComp)):
+                continue
+            n_loops += 1
+            body = lp.body if isinstance(lp, (ast.For, ast.While)) else [lp]
+            for st in body:
+                for n in ast.walk(st):
+                    if isinstance(n, ast.Call) and isinstance(n.func, ast.Attribute) and n.func.attr in ('remove', 'index', 'count') and len(n.args) == 1 and \
+                            not isinstance(n.func.value, ast.Constant):
+                        report.add('C19.R6', '%s@scan[%s]' % (f.construct, ast.unparse(n.func)),
+                                   '%s inside a loop compares against every earlier element: quadratic work in the number of parsed items' % ast.unparse(n)[:60])
+    report.count('C19.R6', n_loops)
+    report.floor('C19.R6', 30, 'loops in parse functions')
